@@ -190,7 +190,9 @@ structure MpdCfg where
   continuous : Bool := false
   deriving Repr
 
-inductive BodyRes | ok (outs : List ASOut) (pt : Nat) | err | panic
+/-- `ptLast`: availability of the last listed segment alone; `prevStartMS`: wall-clock start of the segment just before the first entry of the
+reference timeline, if there is one (what `LiveMPD` needs again when it splits into periods) -/
+inductive BodyRes | ok (outs : List ASOut) (pt : Nat) (ptLast : Nat) (prevStartMS : Option Nat) | err | panic
   deriving Repr
 
 /-- the AdaptationSet loop of `LiveMPD` at the effective instant `endMS` (= min(now, stop)) -/
@@ -234,7 +236,21 @@ def liveMpdBody (a : Asset) (sets : List ASDef) (cfg : MpdCfg) (endMS : Nat) : B
       | some (_, some (o, se)) =>
         if o.tl.isSome then publishMS cfg.startS atoMS (cfg.tsbdS * 1000) endMS se.T se.startNr se.lsi se.entries else cfg.startS * 1000
       | _ => cfg.startS * 1000
-  .ok outs pt
+  let ptLast : Nat := match walked.head? with
+    | some (_, some (_, se)) => lastSegAvailMS cfg.startS atoMS se.T se.lsi
+    | _ => cfg.startS * 1000
+  -- `prevEntryStartMS`: the start of the segment that the first entry of the reference timeline replaced
+  let prevStart : Option Nat := match walked.head?, order.head? with
+    | some (_, some (_, se)), some (_, d) =>
+      match a.rep? d.rep, se.entries.head? with
+      | some r, some f =>
+        if r.N = 0 ∨ se.T = 0 ∨ se.startNr ≤ 0 then none else
+        let ps := r.seg ((se.startNr.toNat - 1) % r.N)
+        let prevDur := ps.stop - ps.start
+        if f.1 < prevDur then none else some ((f.1 - prevDur) * 1000 / se.T + cfg.startS * 1000)
+      | _, _ => none
+    | _, _ => none
+  .ok outs pt ptLast prevStart
 
 /-- `reduceS` on the expanded timeline: the entries whose start lies in `[pStart, pEnd)` (ticks) and the number
 of the first of them (`startNr` + entries before `pStart`) -/
@@ -280,7 +296,7 @@ def liveMpd (a : Asset) (sets : List ASDef) (cfg : MpdCfg) (nowMS : Nat) : MpdRe
   match liveMpdBody a sets cfg endMS with
   | .err => .err
   | .panic => .panic
-  | .ok outs pt =>
+  | .ok outs pt ptLast prevStart =>
     let fin (ps : List PeriodOut) (pt : Nat) : MpdRes :=
       if afterStop then
         .ok { dynamic := false, astS := cfg.startS, ptMS := pt, durS := some ((cfg.stopS.getD 0) - cfg.startS), periods := ps }
@@ -299,6 +315,22 @@ def liveMpd (a : Asset) (sets : List ASDef) (cfg : MpdCfg) (nowMS : Nat) : MpdRe
         let pt' := match cfg.mpdType with
           | .number => lastStartMS
           | _ => max pt lastStartMS
-        fin ps pt'
+        -- (`fix:` commit) a period is removed when the time-shift window reaches the start of the next one: publishTime
+        -- is not earlier than the latest removal
+        let wt := calcWrapTimes a cfg.startS endMS cfg.tsbdS
+        let pdMS := 3600 / pph * 1000
+        let firstP := (wt.startTimeMS - cfg.startS * 1000) / pdMS
+        let pt'' :=
+          if firstP > 0 then
+            let firstPStart := cfg.startS * 1000 + firstP * pdMS
+            let removed := wt.nowMS - (wt.startTimeMS - firstPStart)
+            -- the segment the first entry replaced belongs to a removed period: its leaving the window is no change here
+            let p1 := match cfg.mpdType, prevStart with
+              | .number, _ => pt'
+              | _, some ps => if ps < firstPStart then max ptLast lastStartMS else pt'
+              | _, none => pt'
+            max p1 removed
+          else pt'
+        fin ps pt''
 
 end Core
